@@ -1,2 +1,372 @@
-/- Model driver for C13 (line protocol). Stub until the property's model lands. -/
-def main : IO Unit := pure ()
+/-
+  Model driver for C13 (line protocol of harness/c13_main.c). Imports Model + Gen only.
+  Every answer is computed from the CONCRETE model (Model/IndexImpl.lean). For indexes of moderate size the driver
+  also runs the abstract specification (Model/IndexSpec.lean) in lock step and appends " SPECDIFF ..." to the answer
+  when the two disagree — a run-time refinement check that backs the theorems of Props/C13.lean on exactly the
+  histories the correspondence explores.
+-/
+import XzVerif.Model.Proto
+import XzVerif.Model.IndexSpec
+import XzVerif.Model.IndexImpl
+import XzVerif.Model.FileInfo
+open XzVerif XzVerif.Proto XzVerif.Index
+
+structure Slot where
+  impl : Impl.Index
+  /-- the specification shadow; dropped once the index gets large (the list model is quadratic) -/
+  spec : Option SpecIndex
+
+structure ItSlot where
+  slot : Nat
+  gen : Nat
+  it : Impl.Iter
+  pos : Option (Nat × Option Nat)
+
+structure St where
+  slots : Array (Option Slot)
+  gens : Array Nat
+  iters : Array (Option ItSlot)
+  hash : Option HashSt
+
+def St.init : St := ⟨Array.replicate 8 none, Array.replicate 8 0, Array.replicate 4 none, none⟩
+
+def shadowLimitBlocks : Nat := 1500
+def shadowLimitStreams : Nat := 200
+
+def keepShadow (i : Impl.Index) (sp : Option SpecIndex) : Option SpecIndex :=
+  if i.recordCount > shadowLimitBlocks ∨ i.streams.count > shadowLimitStreams then none else sp
+
+def sumImpl (i : Impl.Index) : String :=
+  s!"S {Impl.streamCount i} {Impl.blockCount i} {Impl.indexSizeAll i} {Impl.streamSize i} {i.totalSize} {Impl.fileSize i} {i.uncompressedSize} {Impl.checks i} {Impl.memused i} {Impl.paddingSize i}"
+
+def sumSpec (i : SpecIndex) : String :=
+  s!"S {Spec.streamCount i} {Spec.blockCount i} {Spec.indexSizeAll i} {Spec.streamSize i} {Spec.totalSize i} {Spec.fileSize i} {Spec.uncompressedSize i} {Spec.checks i} {Spec.memused i} {Spec.paddingSize i}"
+
+def withDiff (a : String) (b : Option String) : String :=
+  match b with
+  | none => a
+  | some b => if a == b then a else a ++ " SPECDIFF " ++ b
+
+def sumSlot (s : Option Slot) : String :=
+  match s with
+  | none => "null"
+  | some s => withDiff (sumImpl s.impl) (s.spec.map sumSpec)
+
+def fmtFlags (f : Option StreamFlags) : String :=
+  match f with
+  | none => "-"
+  | some f => s!"{f.version}/{f.backwardSize}/{f.check}"
+
+def fmtInfo (x : Spec.IterInfo) : String :=
+  let s := x.stream
+  let a := s!"s:{s.number},{s.blockCount},{s.compressedOffset},{s.uncompressedOffset},{s.compressedSize},{s.uncompressedSize},{s.padding},{fmtFlags s.flags}"
+  match x.block with
+  | some b =>
+    if s.blockCount > 0 then
+      a ++ s!";b:{b.numberInFile},{b.compressedFileOffset},{b.uncompressedFileOffset},{b.numberInStream},{b.compressedStreamOffset},{b.uncompressedStreamOffset},{b.uncompressedSize},{b.unpaddedSize},{b.totalSize}"
+    else a
+  | none => a
+
+def fmtInfos (l : List Spec.IterInfo) : String :=
+  if l.isEmpty then "empty" else " | ".intercalate (l.map fmtInfo)
+
+def slotIdx (s : String) : Option Nat := match s.toNat? with | some k => if k < 8 then some k else none | none => none
+def iterIdx (s : String) : Option Nat := match s.toNat? with | some k => if k < 4 then some k else none | none => none
+
+def intArg (s : String) : Option Int :=
+  if s.startsWith "-" then (s.drop 1).toNat?.map fun n => - (Int.ofNat n) else s.toNat?.map Int.ofNat
+
+def St.drop (st : St) (k : Nat) : St :=
+  { st with slots := st.slots.setIfInBounds k none, gens := st.gens.modify k (· + 1) }
+
+def St.put (st : St) (k : Nat) (s : Option Slot) : St := { st with slots := st.slots.setIfInBounds k s }
+
+def St.get (st : St) (k : Nat) : Option Slot := (st.slots[k]?).join
+
+def retS (r : Ret) : String := toString r.toNat
+
+/-- Apply an operation that exists in both models; the shadow follows only on agreement of the return code. -/
+def both (s : Slot) (fi : Impl.Index → Ret × Impl.Index) (fs : SpecIndex → Ret × SpecIndex) : Ret × Slot × Option String :=
+  let (r, i') := fi s.impl
+  match s.spec with
+  | none => (r, ⟨i', none⟩, none)
+  | some sp =>
+    let (r2, sp') := fs sp
+    let diff := if r2 == r then none else some s!"ret {r2.toNat}"
+    (r, ⟨i', keepShadow i' (some sp')⟩, diff)
+
+def answer (r : String) (s : Slot) (diff : Option String) : String :=
+  let base := r ++ " " ++ sumSlot (some s)
+  match diff with
+  | none => base
+  | some d => base ++ " SPECDIFF " ++ d
+
+def appendN (s : Slot) : Nat → Nat → Nat → Nat → Ret × Nat × Slot × Option String
+  | 0, done, _, _ => (.ok, done, s, none)
+  | n + 1, done, u, c =>
+    let (r, s', d) := both s (fun i => Impl.append i u c) (fun i => Spec.append i u c)
+    if r != .ok ∨ d.isSome then (r, done, s', d) else appendN s' n (done + 1) u c
+
+def validIter (st : St) (t : Nat) : Option (ItSlot × Slot) :=
+  match (st.iters[t]?).join with
+  | none => none
+  | some its =>
+    match st.get its.slot with
+    | none => none
+    | some s => if st.gens[its.slot]? == some its.gen then some (its, s) else none
+
+def step (st : St) (ws : List String) : St × String :=
+  match ws with
+  | ["reset"] => (St.init, "ok")
+  | ["init", k] =>
+    match slotIdx k with
+    | none => (st, "bad-op")
+    | some k =>
+      let s : Slot := ⟨Impl.init, some Spec.init⟩
+      ((st.drop k).put k (some s), "ok " ++ sumSlot (some s))
+  | ["end", k] =>
+    match slotIdx k with
+    | none => (st, "bad-op")
+    | some k => (st.drop k, "ok")
+  | ["sum", k] =>
+    match slotIdx k with
+    | none => (st, "bad-op")
+    | some k => (st, sumSlot (st.get k))
+  | ["append", k, u, c] =>
+    match slotIdx k, u.toNat?, c.toNat? with
+    | some k, some u, some c =>
+      match st.get k with
+      | none => (st, "null")
+      | some s =>
+        let (r, s', d) := both s (fun i => Impl.append i u c) (fun i => Spec.append i u c)
+        (st.put k (some s'), answer (retS r) s' d)
+    | _, _, _ => (st, "bad-op")
+  | ["appendn", k, n, u, c] =>
+    match slotIdx k, n.toNat?, u.toNat?, c.toNat? with
+    | some k, some n, some u, some c =>
+      match st.get k with
+      | none => (st, "null")
+      | some s =>
+        let (r, done, s', d) := appendN s n 0 u c
+        (st.put k (some s'), answer s!"{r.toNat} {done}" s' d)
+    | _, _, _, _ => (st, "bad-op")
+  | ["flags", k, v, b, c] =>
+    match slotIdx k, v.toNat?, b.toNat?, c.toNat? with
+    | some k, some v, some b, some c =>
+      match st.get k with
+      | none => (st, "null")
+      | some s =>
+        -- the harness stores the version in a uint32_t and the check in an enum (int)
+        let f : StreamFlags := ⟨v % 4294967296, b, c⟩
+        let (r, s', d) := both s (fun i => Impl.streamFlags i f) (fun i => Spec.streamFlags i f)
+        (st.put k (some s'), answer (retS r) s' d)
+    | _, _, _, _ => (st, "bad-op")
+  | ["padding", k, p] =>
+    match slotIdx k, p.toNat? with
+    | some k, some p =>
+      match st.get k with
+      | none => (st, "null")
+      | some s =>
+        let (r, s', d) := both s (fun i => Impl.streamPadding i p) (fun i => Spec.streamPadding i p)
+        (st.put k (some s'), answer (retS r) s' d)
+    | _, _ => (st, "bad-op")
+  | ["cat", d, s] =>
+    match slotIdx d, slotIdx s with
+    | some d, some s =>
+      match st.get d, st.get s with
+      | some sd, some ss =>
+        if d = s then (st, "null")
+        else
+          let (r, i') := Impl.cat sd.impl ss.impl
+          let (sp', diff) :=
+            match sd.spec, ss.spec with
+            | some a, some b =>
+              let (r2, c) := Spec.cat a b
+              (some c, if r2 == r then none else some s!"ret {r2.toNat}")
+            | _, _ => (none, none)
+          let nd : Slot := ⟨i', keepShadow i' sp'⟩
+          let st := st.put d (some nd)
+          let st := if r == .ok then st.drop s else st
+          (st, answer (retS r) nd diff)
+      | _, _ => (st, "null")
+    | _, _ => (st, "bad-op")
+  | ["dup", d, s] =>
+    match slotIdx d, slotIdx s with
+    | some d, some s =>
+      match st.get s with
+      | none => (st, "null")
+      | some ss =>
+        let nd : Slot := ⟨Impl.dup ss.impl, ss.spec.map Spec.dup⟩
+        ((st.drop d).put d (some nd), "ok " ++ sumSlot (some nd))
+    | _, _ => (st, "bad-op")
+  | ["encode", k, delta] =>
+    match slotIdx k, intArg delta with
+    | some k, some delta =>
+      match st.get k with
+      | none => (st, "null")
+      | some s =>
+        if delta < 0 then (st, "10 0 -")
+        else
+          let e := Impl.encode s.impl
+          let a := s!"0 {e.length} {hexOfBytes e}"
+          (st, withDiff a (s.spec.map fun sp => let e2 := Spec.encode sp; s!"0 {e2.length} {hexOfBytes e2}"))
+    | _, _ => (st, "bad-op")
+  | ["encodes", k, _] =>
+    match slotIdx k with
+    | some k =>
+      match st.get k with
+      | none => (st, "null")
+      | some s =>
+        let e := Impl.encode s.impl
+        (st, s!"1 {e.length} {hexOfBytes e}")
+    | _ => (st, "bad-op")
+  | ["decode", k, ml, hx] =>
+    match slotIdx k, ml.toNat?, bytesOfHex hx with
+    | some k, some ml, some bs =>
+      let r := Impl.decode ml bs
+      let r2 := Spec.decode ml bs
+      let st := st.drop k
+      match r.ret, r.index with
+      | .streamEnd, some i =>
+        let sp := match r2.ret, r2.index with | .streamEnd, some x => some x | _, _ => none
+        let diff := if r2.ret == .streamEnd ∧ r2.used = r.used then none else some s!"ret {r2.ret.toNat} {r2.used}"
+        let s : Slot := ⟨i, keepShadow i sp⟩
+        (st.put k (some s), answer s!"0 {r.used} {ml}" s diff)
+      | ret, _ =>
+        let ret' := if ret == .ok then Ret.dataError else ret
+        let a := s!"{ret'.toNat} 0 {if ret == .memlimitError then r.memNeeded else ml} null"
+        -- the specification has no allocator: LZMA_MEM_ERROR is outside its vocabulary
+        let diff := if r.ret == .memError ∨ (r2.ret == r.ret ∧ r2.used = r.used) then "" else s!" SPECDIFF ret {r2.ret.toNat} {r2.used}"
+        (st, a ++ diff)
+    | _, _, _ => (st, "bad-op")
+  | ["decodes", k, ml, _, hx] =>
+    match slotIdx k, ml.toNat?, bytesOfHex hx with
+    | some k, some ml, some bs =>
+      let r := Impl.decode ml bs
+      let r2 := Spec.decode ml bs
+      let st := st.drop k
+      let diff := if r.ret == .memError ∨ (r2.ret == r.ret ∧ r2.used = r.used) then "" else s!" SPECDIFF ret {r2.ret.toNat} {r2.used}"
+      let mu := if r.ret == .memlimitError then toString r.memNeeded else "-"
+      match r.ret, r.index with
+      | .streamEnd, some i =>
+        let sp := match r2.ret, r2.index with | .streamEnd, some x => some x | _, _ => none
+        let s : Slot := ⟨i, keepShadow i sp⟩
+        (st.put k (some s), s!"1 {r.used} {mu} {sumSlot (some s)}" ++ diff)
+      | ret, _ => (st, s!"{ret.toNat} {r.used} {mu} null" ++ diff)
+    | _, _, _ => (st, "bad-op")
+  | ["memusage", a, b] =>
+    match a.toNat?, b.toNat? with
+    | some a, some b => (st, toString (memusage a b))
+    | _, _ => (st, "bad-op")
+  | ["iter", k, m] =>
+    match slotIdx k, m.toNat? with
+    | some k, some m =>
+      match st.get k with
+      | none => (st, "null")
+      | some s =>
+        -- the harness casts the mode to an enum (32 bits)
+        let m := m % 4294967296
+        (st, withDiff (fmtInfos (Impl.iterAll s.impl m)) (s.spec.map fun sp => fmtInfos (Spec.iterAll sp m)))
+    | _, _ => (st, "bad-op")
+  | ["locate", k, t] =>
+    match slotIdx k, t.toNat? with
+    | some k, some t =>
+      match st.get k with
+      | none => (st, "null")
+      | some s =>
+        let a := match Impl.iterLocate s.impl t with | none => "miss" | some (_, x) => fmtInfo x
+        (st, withDiff a (s.spec.map fun sp => match Spec.locate sp t with | none => "miss" | some x => fmtInfo x))
+    | _, _ => (st, "bad-op")
+  | ["iinit", t, k] =>
+    match iterIdx t, slotIdx k with
+    | some t, some k =>
+      match st.get k with
+      | none => ({ st with iters := st.iters.setIfInBounds t none }, "null")
+      | some _ =>
+        ({ st with iters := st.iters.setIfInBounds t (some ⟨k, st.gens[k]?.getD 0, Impl.Iter.rewind, none⟩) }, "ok")
+    | _, _ => (st, "bad-op")
+  | ["irewind", t] =>
+    match iterIdx t with
+    | some t =>
+      match validIter st t with
+      | none => ({ st with iters := st.iters.setIfInBounds t none }, "stale")
+      | some (its, _) =>
+        ({ st with iters := st.iters.setIfInBounds t (some { its with it := Impl.Iter.rewind, pos := none }) }, "ok")
+    | none => (st, "bad-op")
+  | ["inext", t, m] =>
+    match iterIdx t, m.toNat? with
+    | some t, some m =>
+      match validIter st t with
+      | none => ({ st with iters := st.iters.setIfInBounds t none }, "stale")
+      | some (its, s) =>
+        let m := m % 4294967296
+        let ri := Impl.iterNext s.impl its.it m
+        let a := match ri with | none => "end" | some (_, x) => fmtInfo x
+        let it' := match ri with | none => its.it | some (x, _) => x
+        -- specification iterator (only meaningful while the shadow exists)
+        let (pos', b) :=
+          match s.spec with
+          | none => (its.pos, none)
+          | some sp =>
+            match Spec.iterNextPos sp m (Spec.iterFuel sp) its.pos with
+            | none => (its.pos, some "end")
+            | some p => (some p, some (match Spec.infoAt sp p.1 p.2 with | none => "?" | some x => fmtInfo x))
+        ({ st with iters := st.iters.setIfInBounds t (some { its with it := it', pos := pos' }) }, withDiff a b)
+    | _, _ => (st, "bad-op")
+  | ["ilocate", t, tg] =>
+    match iterIdx t, tg.toNat? with
+    | some t, some tg =>
+      match validIter st t with
+      | none => ({ st with iters := st.iters.setIfInBounds t none }, "stale")
+      | some (its, s) =>
+        let ri := Impl.iterLocate s.impl tg
+        let a := match ri with | none => "miss" | some (_, x) => fmtInfo x
+        let it' := match ri with | none => its.it | some (x, _) => x
+        let (pos', b) :=
+          match s.spec with
+          | none => (its.pos, none)
+          | some sp =>
+            match Spec.locatePos sp tg with
+            | none => (its.pos, some "miss")
+            | some p => (some (p.1, some p.2), some (match Spec.infoAt sp p.1 (some p.2) with | none => "?" | some x => fmtInfo x))
+        ({ st with iters := st.iters.setIfInBounds t (some { its with it := it', pos := pos' }) }, withDiff a b)
+    | _, _ => (st, "bad-op")
+  | ["finfo", k, ml, _, _, hx] =>
+    match slotIdx k, ml.toNat?, bytesOfHex hx with
+    | some k, some ml, some bs =>
+      let (r, idx) := fileInfo ml bs.toArray
+      let st := st.drop k
+      match r, idx with
+      | .streamEnd, some i =>
+        let s : Slot := ⟨i, keepShadow i (some (Impl.abs i))⟩
+        (st.put k (some s), s!"1 0 {sumSlot (some s)}")
+      | r, _ => (st, s!"{r.toNat} 0 null")
+    | _, _, _ => (st, "bad-op")
+  | ["hinit"] =>
+    let h := HashSt.init
+    ({ st with hash := some h }, s!"ok {h.size}")
+  | ["happend", u, c] =>
+    match u.toNat?, c.toNat? with
+    | some u, some c =>
+      match st.hash with
+      | none => (st, "null")
+      | some h =>
+        let (r, h') := h.append u c
+        ({ st with hash := some h' }, s!"{r.toNat} {h'.size}")
+    | _, _ => (st, "bad-op")
+  | ["hsize"] =>
+    match st.hash with
+    | none => (st, "null")
+    | some h => (st, toString h.size)
+  | ["hdecode", _, hx] =>
+    match bytesOfHex hx with
+    | some bs =>
+      match st.hash with
+      | none => (st, "null")
+      | some h =>
+        let (r, used, h') := h.decode bs
+        ({ st with hash := some h' }, s!"{r.toNat} {used}")
+    | none => (st, "bad-op")
+  | _ => (st, "bad-op")
+
+def main : IO Unit := runLoop step St.init
